@@ -162,6 +162,13 @@ func getGrafanaNetAddr(addr string) (string, string, string) {
 // NewGrafanaNet creates a special route that writes to a grafana.net datastore
 // We will automatically run the route and the destination
 func NewGrafanaNet(key string, matcher matcher.Matcher, cfg GrafanaNetConfig) (Route, error) {
+	// Concurrency is the shard count (a divisor in Dispatch) and BufSize/Concurrency a channel size
+	if cfg.Concurrency < 1 {
+		return nil, fmt.Errorf("grafanaNet route %q: concurrency must be >= 1, got %d", key, cfg.Concurrency)
+	}
+	if cfg.BufSize < 0 {
+		return nil, fmt.Errorf("grafanaNet route %q: bufSize must be >= 0, got %d", key, cfg.BufSize)
+	}
 	schemas, err := getSchemas(cfg.SchemasFile)
 	if err != nil {
 		return nil, err
